@@ -718,6 +718,9 @@ type Manager struct {
 	updates chan uint64
 	pgp     *pgxpool.Pool
 	conf    config.Root
+
+	// guards restart: the stop signal of the newest generation of tasks
+	restartMut sync.Mutex
 }
 
 func NewManager(ctx context.Context, pgp *pgxpool.Pool, conf config.Root) *Manager {
@@ -734,10 +737,10 @@ func (tm *Manager) Updates() uint64 {
 	return <-tm.updates
 }
 
-func (tm *Manager) runTask(t *Task) {
+func (tm *Manager) runTask(t *Task, stop chan struct{}) {
 	for {
 		select {
-		case <-tm.restart:
+		case <-stop:
 			slog.InfoContext(t.ctx, "restart-task")
 			return
 		default:
@@ -767,9 +770,17 @@ func (tm *Manager) runTask(t *Task) {
 // Ensures all running tasks stop
 // and calls [Manager.Run] in a new go routine.
 func (tm *Manager) Restart() error {
+	// Stop the running generation and create the stop signal
+	// of the next one in a single step. A second restart, or a
+	// restart after a failed one, must not close a channel twice.
+	tm.restartMut.Lock()
 	close(tm.restart)
+	stop := make(chan struct{})
+	tm.restart = stop
+	tm.restartMut.Unlock()
+
 	ec := make(chan error)
-	go tm.Run(ec)
+	go tm.run(ec, stop)
 	return <-ec
 }
 
@@ -780,6 +791,13 @@ func (tm *Manager) Restart() error {
 // Acquires a lock to ensure only on routine is running.
 // Releases lock on return
 func (tm *Manager) Run(ec chan error) {
+	tm.restartMut.Lock()
+	stop := tm.restart
+	tm.restartMut.Unlock()
+	tm.run(ec, stop)
+}
+
+func (tm *Manager) run(ec chan error, stop chan struct{}) {
 	tm.running.Lock()
 	defer tm.running.Unlock()
 
@@ -791,13 +809,12 @@ func (tm *Manager) Run(ec chan error) {
 	}
 	close(ec)
 
-	tm.restart = make(chan struct{})
 	var wg sync.WaitGroup
 	for i := range tm.tasks {
 		i := i
 		wg.Add(1)
 		go func() {
-			tm.runTask(tm.tasks[i])
+			tm.runTask(tm.tasks[i], stop)
 			wg.Done()
 		}()
 	}
